@@ -353,6 +353,9 @@ func Run(e *Engine, tier string, seed uint64, driver string, knownPath string, r
 		}
 	}
 	// shrink and classify failures (cap the work)
+	// concrete property failures first: the cap must not hide a failing input behind a run of
+	// model/implementation disagreements
+	sort.SliceStable(pend, func(i, j int) bool { return pend[i].kind == "oracle" && pend[j].kind != "oracle" })
 	const maxShrink = 60
 	sigSeen := map[string]bool{}
 	for n, p := range pend {
